@@ -9,33 +9,34 @@ tools/sensitivity/results.jsonl.
 import json, os, subprocess, sys, time
 ROOT = os.path.dirname(os.path.dirname(os.path.abspath(__file__)))
 MUT = json.load(open(os.path.join(ROOT, "tools/sensitivity/mutants.json")))
+REPO = os.environ.get("VERIF_REPO", "/repo")
 ENV = dict(os.environ, GOFLAGS="-mod=mod", GOPROXY="off", GOSUMDB="off", VERIF_REPLAY_DIR=os.path.join(ROOT, ".work", "mutant-replays"), VERIF_EVIDENCE_DIR=os.path.join(ROOT, ".work", "mutant-evidence"))
 
 def sh(cmd, **kw):
     return subprocess.run(cmd, shell=True, stdout=subprocess.PIPE, stderr=subprocess.STDOUT, text=True, **kw)
 
 def clean():
-    return sh("git -C /repo status --porcelain --untracked-files=no").stdout.strip() == ""
+    return sh("git -C " + REPO + " status --porcelain --untracked-files=no").stdout.strip() == ""
 
 def restore():
-    sh("git -C /repo checkout -- .")
+    sh("git -C " + REPO + " checkout -- .")
 
 def run(m, suite, tier):
-    assert clean(), "/repo has uncommitted changes"
+    assert clean(), REPO + " has uncommitted changes"
     try:
         for ed in m["edits"]:
-            p = os.path.join("/repo", ed["file"])
+            p = os.path.join(REPO, ed["file"])
             s = open(p).read()
             if s.count(ed["old"]) != 1:
                 return {"id": m["id"], "error": "pattern matches %d times in %s" % (s.count(ed["old"]), ed["file"])}
             open(p, "w").write(s.replace(ed["old"], ed["new"]))
         r = {"id": m["id"], "props": m["props"], "note": m.get("note", "")}
-        b = sh("cd /repo && go build ./... 2>&1", env=ENV)
+        b = sh("cd " + REPO + " && go build ./... 2>&1", env=ENV)
         if b.returncode != 0:
             r["error"] = "does not compile: " + b.stdout[-400:]
             return r
         if suite:
-            t = sh("cd /repo && go test -vet=off -count=1 ./... 2>&1 | tail -15", env=ENV)
+            t = sh("cd " + REPO + " && go test -vet=off -count=1 ./... 2>&1 | tail -15", env=ENV)
             r["suite_passes"] = "FAIL" not in t.stdout
             if not r["suite_passes"]:
                 r["suite_tail"] = t.stdout[-600:]
